@@ -1240,12 +1240,15 @@ class CWLRunCrateProvenanceManager(RunCrateProvenanceManager):
         if token_value["class"] == "File":
             if "secondaryFiles" in token_value:
                 self.files_map[token_value["path"]] = token_value["checksum"][5:]
-                self.graph[token_value["checksum"][5:]] = {
-                    "@id": token_value["checksum"][5:],
-                    "@type": "File",
-                    "alternateName": token_value["basename"],
-                    "sha1": token_value["checksum"][5:],
-                }
+                self.graph.setdefault(
+                    token_value["checksum"][5:],
+                    {
+                        "@id": token_value["checksum"][5:],
+                        "@type": "File",
+                        "alternateName": token_value["basename"],
+                        "sha1": token_value["checksum"][5:],
+                    },
+                )
                 parts = cast(
                     MutableSequence[MutableMapping[str, Any]],
                     await asyncio.gather(
@@ -1256,7 +1259,7 @@ class CWLRunCrateProvenanceManager(RunCrateProvenanceManager):
                     ),
                 )
                 for part in parts:
-                    self.graph[part["@id"]] = part
+                    self.graph.setdefault(part["@id"], part)
                 parts = [{"@id": token_value["checksum"][5:]}] + [
                     {"@id": p["@id"]} for p in parts
                 ]
@@ -1516,7 +1519,7 @@ class CWLRunCrateProvenanceManager(RunCrateProvenanceManager):
                 )
             )
             for v in value:
-                self.graph[v["@id"]] = v
+                self.graph.setdefault(v["@id"], v)
             return {
                 "@id": "#" + str(uuid.uuid4()),
                 "@type": "PropertyValue",
